@@ -88,6 +88,9 @@ Definition msg_missing_fields := "Missing configuration fields: ".
 Definition msg_no_suffix (f : string) := "Provided file name " ++ f ++ " is missing a file type.".
 Definition msg_bad_suffix (f t : string) :=
   "Provided file name " ++ f ++ " has an invalid type " ++ t ++ ". Valid types are py, graphql and gql.".
+Definition msg_reserved (n : string) :=
+  "Provided name " ++ n ++ " is imported by the generated schema module and cannot be used as a variable name in it.".
+Definition msg_same_names := "schema_variable_name and type_map_variable_name must be different.".
 Definition msg_no_section := "Config has no [tool.ariadne-codegen] section.".
 
 Definition assert_path_exists (e : env) (p : string) : option err :=
@@ -473,10 +476,27 @@ Definition decode_schema (kv : section) : option graw :=
   do tv <- get_str kv "type_map_variable_name" "type_map";
   Some {| gr_base := b; gr_target := t; gr_schema_var := sv; gr_type_map_var := tv |}.
 
+(* graphql_schema_generators/constants.py RESERVED_VARIABLE_NAMES: names bound by the imports of the
+   generated schema module (data; K2-checked against the code each run) *)
+Definition reserved_variable_names : list string :=
+  ["DirectiveLocation"; "GraphQLArgument"; "GraphQLDirective"; "GraphQLEnumType"; "GraphQLEnumValue";
+   "GraphQLField"; "GraphQLInputField"; "GraphQLInputObjectType"; "GraphQLInterfaceType"; "GraphQLList";
+   "GraphQLNamedType"; "GraphQLNonNull"; "GraphQLObjectType"; "GraphQLScalarType"; "GraphQLSchema";
+   "GraphQLUnionType"; "GraphQLID"; "GraphQLInt"; "GraphQLFloat"; "GraphQLString"; "GraphQLBoolean";
+   "Undefined"; "TypeMap"; "cast"; "List"].
+Definition is_reserved_var (n : string) : bool := existsb (String.eqb n) reserved_variable_names.
+Definition assert_not_reserved (n : string) : option err :=
+  if is_reserved_var n then Some (mkerr InvalidConfiguration (msg_reserved n)) else None.
+Definition assert_names_differ (a b : string) : option err :=
+  if String.eqb a b then Some (mkerr InvalidConfiguration msg_same_names) else None.
+
 Definition schema_asserts (r : graw) : list (option err) :=
   [ assert_schema_target_filename (gr_target r);
     assert_identifier (gr_schema_var r);
-    assert_identifier (gr_type_map_var r) ].
+    assert_identifier (gr_type_map_var r);
+    assert_not_reserved (gr_schema_var r);
+    assert_not_reserved (gr_type_map_var r);
+    assert_names_differ (gr_schema_var r) (gr_type_map_var r) ].
 
 Definition schema_post_init (e : env) (r : graw) : res gsettings :=
   match base_post_init e (gr_base r) with
@@ -598,7 +618,10 @@ Definition schema_constraints (e : env) (r : graw) : list (string * bool) :=
   base_constraints e (gr_base r) ++
   [ ("target-file-type", match assert_schema_target_filename (gr_target r) with None => true | Some _ => false end);
     ("schema-variable-name", usable_name (gr_schema_var r));
-    ("type-map-variable-name", usable_name (gr_type_map_var r)) ].
+    ("type-map-variable-name", usable_name (gr_type_map_var r));
+    ("schema-variable-not-reserved", negb (is_reserved_var (gr_schema_var r)));
+    ("type-map-variable-not-reserved", negb (is_reserved_var (gr_type_map_var r)));
+    ("variable-names-differ", negb (String.eqb (gr_schema_var r) (gr_type_map_var r))) ].
 
 Definition all_hold (l : list (string * bool)) : bool := forallb snd l.
 Definition violated (l : list (string * bool)) : list string :=
@@ -684,6 +707,7 @@ Definition run_settings (e : sexp) : sexp :=
       | _, _ => sErr "settings: bad arguments"
       end
   | L [A "fields"] => L [sStrs client_field_names; sStrs schema_field_names]
+  | L [A "reserved"] => sStrs reserved_variable_names
   | L [A "suffix"; A p] => L [A (path_suffix p); A (file_format p)]
   | L [A "identifier"; A s] => L [sB (is_identifier s); sB (is_kw s)]
   | _ => sErr "settings: bad command"
